@@ -1,7 +1,7 @@
 (* C15 — property theorems only. M is `run true` over the tables of the source (Model.v + Interp.v), S is
    `run false` (Spec.v + Interp.v); the theorems over the tables regenerated on every run are in
    TableProofs.v. *)
-From C15 Require Import Model Spec Interp Corr IntProofs WordProofs EnglishProofs RomanProofs Proofs.
+From C15 Require Import Model Spec Interp Corr IntProofs WordProofs EnglishProofs RomanProofs CaseProofs Proofs.
 
 (* ======== ~D ~B ~O ~X ~nR: "render any integer in the right base with the requested width, padding, sign
    and grouping" ======== *)
@@ -60,13 +60,13 @@ Print Assumptions C15_roman_domain.
 Theorem C15_dirR_roman_is_roman : forall old z, (1 <= z <= 3999)%Z -> go_roman src_tables old (dec_text z) = std_roman old z.
 Proof. exact go_roman_is_roman. Qed.
 Print Assumptions C15_dirR_roman_is_roman.
-(* (5b) ... and for EVERY integer, not only 1..3999: the Roman branch of dirR (the sign test, "4 < len || 3 < len && '3' <
-   digits[0]", the loop over the digits) and the definition agree — the numeral inside the range, no numeral outside —
-   EXACTLY when the integer is not 0; at 0 the Go code writes the empty string (finding C15-roman-zero). Inside the
-   range by (5); outside by the length and the first character of the decimal text. *)
-Theorem C15_dirR_roman_exact : forall old z, go_roman src_tables old (dec_text z) = std_roman old z <-> z <> 0%Z.
-Proof. exact go_roman_exact. Qed.
-Print Assumptions C15_dirR_roman_exact.
+(* (5b) ... and for EVERY integer, not only 1..3999: the Roman branch of dirR (the test for a sign or a lone 0, "4 < len ||
+   3 < len && '3' < digits[0]", the loop over the digits) and the definition agree — the numeral inside the range, an
+   error outside. Inside the range by (5); outside by the sign, the length and the first character of the decimal text.
+   (Until repo_fixes/C15-5 this failed at 0, where the Go code wrote the empty string: finding C15-roman-zero.) *)
+Theorem C15_dirR_roman_all_integers : forall old z, go_roman src_tables old (dec_text z) = std_roman old z.
+Proof. exact go_roman_all_integers. Qed.
+Print Assumptions C15_dirR_roman_all_integers.
 
 (* (6) English, for EVERY integer of absolute value below 10^66 (the range of the scale words), cardinal and
    ordinal: the text of the definition reads back to the integer (by induction over the groups of three digits;
@@ -83,34 +83,31 @@ Theorem C15_ordinal_last_word : forall z ws, cardinal_words z = Some ws ->
   ordinal_words z = Some (removelast ws ++ [ordinal_word (last ws [])]).
 Proof. exact ordinal_last_word. Qed.
 Print Assumptions C15_ordinal_last_word.
-(* (6b) The loop of dirR (for _, trip := range cardinalTriples, three digits of the decimal text per round, the pop of
-   the scale word of an all-zero group, the ordinal tables in the first round only) writes, for EVERY integer, the
-   text of the definition wherever english_ok holds: no group of three digits has a tens digit 2..9 with a units digit 0
-   (finding C15-english-empty-word), the group of 10^18 is zero (C15-quantillion), |z| < 10^66
-   (C15-english-beyond-vigintillion) and, for ordinals, the number is 0 or ends in 01..19 or in a digit that is not 0
-   (C15-ordinal-of-round-number). By induction over the groups of three digits of the decimal text; the words of one
-   round are compared with the definition for all 22 x 1000 (scale, group value) pairs by kernel computation — the
-   domain of a group is finite. No bound on z. *)
-Theorem C15_english_loop : forall ordinal z, english_ok ordinal (Z.abs_N z) = true ->
-  go_english src_tables ordinal (dec_text z) = std_english ordinal z.
+(* (6b) The English branch of dirR (the "number too large" test on the length of the decimal text, for _, trip := range
+   cardinalTriples with three digits per round, the pop of the scale word of an all-zero group, the ordinal tables in the
+   first round only, the ordinal ending y -> ieth / + th given to the last word when the number ends in 0 and not in
+   10) writes, for EVERY integer, cardinal and ordinal, exactly the text of the definition, and signals an error exactly
+   where the definition has no text (from 10^66 on). No guard, no bound on z. By induction over the groups of three
+   digits of the decimal text; the words of one round are compared with the definition for all 22 x 1000 (scale, group
+   value) pairs by kernel computation — the domain of a group is finite. (Until the repairs repo_fixes/C15-1..4 this held
+   on a static predicate english_ok only, whose four clauses were the findings C15-quantillion, C15-english-empty-word,
+   C15-english-beyond-vigintillion and C15-ordinal-of-round-number; the equivalence C15_english_loop_exact went with it.) *)
+Theorem C15_english_loop : forall ordinal z, go_english src_tables ordinal (dec_text z) = std_english ordinal z.
 Proof. exact english_loop. Qed.
 Print Assumptions C15_english_loop.
-(* (6c) ... and EXACTLY there: for every integer outside english_ok the loop writes a text that is not the defined one
-   (a word the definition never writes — the empty word, "quantillion" —, a cardinal where the ordinal is wanted, or a
-   text where the definition has none). So the four clauses of english_ok are each necessary: they are the four known
-   findings about the English writer, and there is no fifth. *)
-Theorem C15_english_loop_exact : forall ordinal z,
-  go_english src_tables ordinal (dec_text z) = std_english ordinal z <-> english_ok ordinal (Z.abs_N z) = true.
-Proof. exact english_loop_exact. Qed.
-Print Assumptions C15_english_loop_exact.
-(* (6d) What the loop writes for every integer but 0 and EVERY table (no guard): "negative" if z < 0, then the words of
+(* (6d) What the loop writes for every integer but 0 and EVERY table (no guard): nothing (an error) when the decimal text
+   has more than three digits per scale word; otherwise "negative" if z < 0, then the words of
    the groups of three digits of |z| from the most significant one, each group as one round of the loop writes it (GL);
    and the fact about decimal texts it rests on: the text of n >= 1000 is the text of n / 1000 followed by three digits. *)
 Theorem C15_english_loop_words : forall T colon z, z <> 0%Z ->
   go_english T colon (dec_text z) =
-  Some (join [sp] ((if (z <? 0)%Z then [tx "negative"] else []) ++
-                   rev (GL T (t_triples T) (if colon then t_ordone T else t_one T) (if colon then t_ordteen T else t_teen T)
-                           (triples_of (Z.abs_N z))))).
+  if Nat.ltb (3 * List.length (t_triples T)) (List.length (digit_text 10 (Z.abs_N z))) then None else
+  match go_ordinal_first colon (digit_text 10 (Z.abs_N z))
+          (GL T (t_triples T) (if colon then t_ordone T else t_one T) (if colon then t_ordteen T else t_teen T)
+              (triples_of (Z.abs_N z))) with
+  | None => None
+  | Some words => Some (join [sp] ((if (z <? 0)%Z then [tx "negative"] else []) ++ rev words))
+  end.
 Proof. exact go_english_words. Qed.
 Print Assumptions C15_english_loop_words.
 Theorem C15_decimal_text_by_groups : forall n, (1000 <= n)%N ->
@@ -122,24 +119,24 @@ Print Assumptions C15_decimal_text_by_groups.
 (* ======== "consume and move through the arguments as specified" — for both M and S (any b), any control record,
    and any function `rec` in the place of the recursive call ======== *)
 
-(* (7) ~n* / ~n:* / ~n@* : the cursor moves by n / back by n / to n and nothing else changes; by the definition it
-   never leaves 0..number of arguments. *)
-Theorem C15_move_law : forall b colon at_ ps c c' a,
-  dir_move b colon at_ ps c = Ok (c', a) ->
+(* (7) ~n* / ~n:* / ~n@* : the cursor moves by n / back by n / to n and nothing else changes; it
+   never leaves 0..number of arguments (an error otherwise; for the Go code since repo_fixes/C15-15). *)
+Theorem C15_move_law : forall colon at_ ps c c' a,
+  dir_move colon at_ ps c = Ok (c', a) ->
   exists n changed, first_int ps 1 = (GOk n, changed) /\ (colon && at_ = false) /\ a = false /\ extends c c' /\
     c_apos c' = (if colon then c_apos c - n else if at_ then (if changed then n else 0) else c_apos c + n)%Z.
 Proof. exact move_law. Qed.
 Print Assumptions C15_move_law.
 Theorem C15_move_stays_inside : forall colon at_ ps c c' a,
-  dir_move false colon at_ ps c = Ok (c', a) -> (0 <= c_apos c' <= nargs c)%Z.
+  dir_move colon at_ ps c = Ok (c', a) -> (0 <= c_apos c' <= nargs c)%Z.
 Proof. exact move_stays_inside. Qed.
 Print Assumptions C15_move_stays_inside.
 
 (* (8) ~A ~S ~D ~B ~O ~X ~C take exactly one argument, which must be there (~C: a character), and only append
    text; ~P takes one, ~:P re-reads the previous one and leaves the cursor where it was, and writes nothing, y,
    ies or s; ~% ~~ ~& ~T take none. *)
-Theorem C15_aesthetic_consumes_one : forall b esc colon at_ ps c c' a, (0 <= c_apos c)%Z ->
-  dir_as b esc colon at_ ps c = Ok (c', a) ->
+Theorem C15_aesthetic_consumes_one : forall esc colon at_ ps c c' a, (0 <= c_apos c)%Z ->
+  dir_as esc colon at_ ps c = Ok (c', a) ->
   a = false /\ c_apos c' = (c_apos c + 1)%Z /\ arg_at c <> None /\ extends c c'.
 Proof. exact aesthetic_consumes_one. Qed.
 Print Assumptions C15_aesthetic_consumes_one.
@@ -170,22 +167,22 @@ Proof. exact freshline_tab_take_nothing. Qed.
 Print Assumptions C15_freshline_tab_take_nothing.
 
 (* (9) ~{body~} and ~:{body~} take exactly one argument — the list — whatever the body is, whatever it does and
-   however many elements there are; the enclosing control only gets text appended. By the definition the list
-   must be present. *)
+   however many elements there are; the enclosing control only gets text appended. The list must be present, for
+   the definition and (since repo_fixes/C15-14) for the Go code. *)
 Theorem C15_iteration_consumes_its_list : forall b fuel rec colon ps c c' a v,
   arg_at c = Some v ->
   dir_iter b fuel rec colon false ps c = Ok (c', a) ->
   a = false /\ c_apos c' = (c_apos c + 1)%Z /\ as_list v <> None /\ extends c c'.
 Proof. exact iteration_consumes_its_list. Qed.
 Print Assumptions C15_iteration_consumes_its_list.
-Theorem C15_iteration_needs_its_list : forall fuel rec colon ps c c' a,
-  dir_iter false fuel rec colon false ps c = Ok (c', a) -> arg_at c <> None.
+Theorem C15_iteration_needs_its_list : forall b fuel rec colon ps c c' a,
+  dir_iter b fuel rec colon false ps c = Ok (c', a) -> arg_at c <> None.
 Proof. exact iteration_needs_its_list. Qed.
 Print Assumptions C15_iteration_needs_its_list.
 
 (* (10) ~? takes two arguments, the control string and the list of its arguments, whatever that string does. *)
-Theorem C15_indirection_consumes_two : forall b rec c c' a v, arg_at c = Some v ->
-  dir_proc b rec false c = Ok (c', a) ->
+Theorem C15_indirection_consumes_two : forall rec c c' a v, arg_at c = Some v ->
+  dir_proc rec false c = Ok (c', a) ->
   a = false /\ c_apos c' = (c_apos c + 2)%Z /\ (exists s, v = VStr s) /\ c_args c' = c_args c.
 Proof. exact indirection_consumes_two. Qed.
 Print Assumptions C15_indirection_consumes_two.
@@ -204,20 +201,41 @@ Theorem C15_integer_site_coincides : forall base off colon at_ ps c z, (2 <= bas
   arg_at c = Some (VInt z) -> dir_int true base off colon at_ ps c = dir_int false base off colon at_ ps c.
 Proof. exact integer_site_coincides. Qed.
 Print Assumptions C15_integer_site_coincides.
+(* ... whatever the argument is: one that is not an integer is written as by ~A, padded on the left, by both (since
+   repo_fixes/C15-13; it used to be written with escapes: finding C15-integer-directive-escapes-non-integer) *)
+Theorem C15_integer_site_coincides_any : forall base off colon at_ ps c, (2 <= base <= 36)%N ->
+  dir_int true base off colon at_ ps c = dir_int false base off colon at_ ps c.
+Proof. exact integer_site_coincides_any. Qed.
+Print Assumptions C15_integer_site_coincides_any.
 Theorem C15_roman_site_coincides : forall colon c z, (1 <= z <= 3999)%Z -> arg_at c = Some (VInt z) ->
   dir_radix true src_tables colon true [] c = dir_radix false src_tables colon true [] c.
 Proof. exact roman_site_coincides. Qed.
 Print Assumptions C15_roman_site_coincides.
-(* the same for every integer but 0 (Roman) and for every integer inside english_ok (English, cardinal and ordinal):
-   consequences of (5b) and (6b); so ~R ~:R ~@R ~:@R without parameters leave the guard only at the known findings. *)
-Theorem C15_roman_site_coincides_all : forall colon c z, z <> 0%Z -> arg_at c = Some (VInt z) ->
+(* the same for every integer, Roman and English, cardinal and ordinal: consequences of (5b) and (6b); so ~R ~:R ~@R
+   ~:@R without parameters never leave the guard. *)
+Theorem C15_roman_site_coincides_all : forall colon c z, arg_at c = Some (VInt z) ->
   dir_radix true src_tables colon true [] c = dir_radix false src_tables colon true [] c.
 Proof. exact roman_site_coincides_all. Qed.
 Print Assumptions C15_roman_site_coincides_all.
-Theorem C15_english_site_coincides : forall colon c z, english_ok colon (Z.abs_N z) = true -> arg_at c = Some (VInt z) ->
+(* ~radix,mincol,padchar,commachar,comma-intervalR: with any prefix parameter dirR is the integer writer in that radix
+   (since repo_fixes/C15-6; before, the parameters were ignored: finding C15-radix-parameters-ignored), so (1)-(4)
+   apply to it and the site coincides for every table, parameter list and integer *)
+Theorem C15_radix_site_coincides : forall T colon at_ p ps c z, arg_at c = Some (VInt z) ->
+  dir_radix true T colon at_ (p :: ps) c = dir_radix false T colon at_ (p :: ps) c.
+Proof. exact radix_site_coincides. Qed.
+Print Assumptions C15_radix_site_coincides.
+Theorem C15_english_site_coincides : forall colon c z, arg_at c = Some (VInt z) ->
   dir_radix true src_tables colon false [] c = dir_radix false src_tables colon false [] c.
 Proof. exact english_site_coincides. Qed.
 Print Assumptions C15_english_site_coincides.
+
+(* (13) ~( ~:( ~@( ~:@( : the conversion dirCase applies to the text of its body (bytes.ToLower, bytes.ToUpper,
+   appendCapitalized) is string-downcase / string-capitalize / first word capitalized and the rest lower case /
+   string-upcase of the definition, for every text (since repo_fixes/C15-18; cases.Title capitalised "2nd" to "2Nd":
+   finding C15-capitalize-digit-words). *)
+Theorem C15_case_conversion : forall colon at_ t, go_case colon at_ t = std_case colon at_ t.
+Proof. exact go_case_is_std_case. Qed.
+Print Assumptions C15_case_conversion.
 
 (* FULL statement wanted:  forall T fuel control args, untainted (M_run T fuel control args) = true ->
    fst (M_run T fuel control args) = fst (S_run fuel control args)   (inside the guard the model of the Go code
@@ -229,13 +247,8 @@ Print Assumptions C15_english_site_coincides.
 Theorem C15_known_deviations_refuted : forallb deviates deviation_witnesses = true.
 Proof. exact deviations_hold. Qed.
 Print Assumptions C15_known_deviations_refuted.
-Theorem C15_known_deviation_values :
-  map both [("~{~A~^,~}", [ints [1; 2; 3]]); ("~2R", [VInt 5]); ("~:R", [VInt 100]); ("~D", [VStr (tx "abc")]);
-            ("abc~2,4T|", []); ("~:*~A", [VInt 1]); ("~{~A~}}", [ints [1]]); ("~:[f~;t~]", [VList []])]%string%Z =
-  [ (OText (tx "1,"), OText (tx "1,2,3")); (OText (tx "five"), OText (tx "101"));
-    (OText (tx "one hundred"), OText (tx "one hundredth")); (OText (tx """abc"""), OText (tx "abc"));
-    (OText (tx "abc     |"), OText (tx "abc   |")); (OText (tx "nil"), OError);
-    (OText (tx "1"), OText (tx "1}")); (OText (tx "t"), OText (tx "f")) ].
+(* for the entries of Proofs.deviation_table (control string, arguments, what M writes, what S writes): *)
+Theorem C15_known_deviation_values : map (fun e => both (fst e)) deviation_table = map snd deviation_table.
 Proof. exact deviation_values. Qed.
 Print Assumptions C15_known_deviation_values.
 Theorem C15_guard_nonvacuous : forallb in_guard_same guard_examples = true.
